@@ -305,8 +305,9 @@ pub(super) fn derive_schema(input: TokenStream) -> syn::Result<TokenStream> {
                     type_schemas.push(schema)
                 }
 
+                /* `anyOf`: elements of the same (or overlapping, like integer and number) types match more than one */
                 Ok(quote! {
-                    ::ohkami::openapi::array(::ohkami::openapi::oneOf(
+                    ::ohkami::openapi::array(::ohkami::openapi::anyOf(
                         (#(#type_schemas,)*)
                     ))
                 })
@@ -442,11 +443,20 @@ pub(super) fn derive_schema(input: TokenStream) -> syn::Result<TokenStream> {
                 variant_schemas.push(schema)
             }
 
-            Ok(quote! {
-                ::ohkami::openapi::oneOf(
-                    ( #(#variant_schemas,)* )
-                )
-            })
+            if container_attrs.serde.untagged {
+                /* nothing makes untagged variants mutually exclusive: serde takes the first that reads */
+                Ok(quote! {
+                    ::ohkami::openapi::anyOf(
+                        ( #(#variant_schemas,)* )
+                    )
+                })
+            } else {
+                Ok(quote! {
+                    ::ohkami::openapi::oneOf(
+                        ( #(#variant_schemas,)* )
+                    )
+                })
+            }
         }
     }
 }
